@@ -50,6 +50,13 @@ def make_unitary(t, radix, n):
         return np.eye(dim)[rng.permutation(dim)].astype(complex)
     if k == 'diag':
         return np.diag(np.exp(1j * rng.uniform(-np.pi, np.pi, dim)))
+    if k == 'local':
+        # a product of single-qudit unitaries: synthesis succeeds with zero
+        # entangling layers
+        L = np.eye(1, dtype=complex)
+        for q in range(n):
+            L = np.kron(L, specs.haar(radix, t['seed'] + 17 * q + 3))
+        return L
     if k in ('qperm', 'qperm_local'):
         # a permutation of the QUDITS, optionally followed by single-qudit
         # unitaries: cheapest when compiled with a non-identity output
@@ -273,7 +280,8 @@ def target_specs(draw, quick=True, radix=None, n=None):
     ty = draw(st.sampled_from(['unitary', 'unitary', 'state', 'system']))
     if ty == 'unitary':
         kind = draw(st.sampled_from(['haar', 'haar', 'perm', 'diag',
-                                     'identity', 'clifford', 'near']))
+                                     'identity', 'clifford', 'near',
+                                     'local']))
     elif ty == 'state':
         kind = draw(st.sampled_from(['haar', 'basis', 'ghz', 'w']))
     else:
